@@ -320,4 +320,15 @@ example :
   norm_num [setup, Adj.new, Adj.reset, Calm, Tight, runSteps, stepOnce, Adj.adjust, Tl.evs, Tl.ev,
     Tl.ctl, Tl.elapse, Tl.sleep, Tl.sleepReal, waits]
 
+/-- **`reset()` takes the clock as it is now, whatever the adjustor remembered** - also a reference *later* than now,
+which is what it holds when an older checkpoint was loaded into the running process (second launch of the same
+interaction): the first interval after such a `setup()` is `interval - offset` like every other one. -/
+theorem reset_forgets (a : Adj) (l : Option Rat) (t : Tl) :
+    ({ a with last := l }.reset t).1 = (a.reset t).1 := by
+  simp [Adj.reset]
+
+theorem reset_after_load (a : Adj) (t : Tl) (v : Rat) :
+    (a.reset (t.load v)).1.last = some v ∧ (a.reset (t.load v)).2 = v := by
+  simp [Adj.reset, Tl.load]
+
 end Pamiq.Adjust
